@@ -161,7 +161,12 @@ def run(ctx):
         for api in ('formatted_kevents', 'formatted_traces'):
             p = PyKdebugParser()
             p.color = False
-            full = [str(x) for x in getattr(p, api)(io.BytesIO(blob))]
+            try:
+                full = [str(x) for x in getattr(p, api)(io.BytesIO(blob))]
+            except Exception as ex:
+                ctx.violation('C06/complete-file-raised', '%s of the complete dump raised %r' % (api, ex),
+                              {'kind': 'count', 'count': -1, 'file_hex': blob.hex()})
+                continue
             for c in list(range(0, len(full) + 2)) + [-1]:
                 buf = io.StringIO()
                 with contextlib.redirect_stdout(buf):
